@@ -8,7 +8,7 @@
    uncached result of its lookup (the contract).
    PROVED PART (C05_indexed_full_rows): the same for the CONCRETE index (the model of cache_data.IndexedCache / SeenSet,
    tied to the code by C20's operation-level correspondence) behind the shape all five call sites of symbolic.py share
-   (coverage check -> replay what retrieval returns; otherwise evaluate, yield, store every row), for every operator whose
+   (coverage check -> replay the most general of the rows retrieval returns; otherwise evaluate, yield, store every row), for every operator whose
    rows bind every cache key, over ANY history of lookups.
    MISSING: the same for operators whose rows leave a cache key open (the wildcard enters the index).  The index itself is
    now proved exact there too (Properties/C20.v, C20_retrieve: retrieval = the reference answer for EVERY history - at the pinned
